@@ -466,21 +466,29 @@ func ternaryReadAndAddScenario(ch chainT) engine.Scenario {
 
 var terOps = []string{"Read", "ReadNew", "ReadAndAdd(ramp)", "AtLevel(max).Read", "AtLevel(max).ReadNew", "sampler@level0.Read", "sampler@level1.ReadAndAdd(ramp)"}
 
-func ternarySequenceScenario(kind int, depth int) engine.Scenario {
+// With mont=true sampler A (and its views) is a Montgomery-output sampler while the twin stays plain: every output of A
+// must be the Montgomery form of what the plain twin draws from the same bytes (the output-domain flag crossed with
+// the views and the call interleavings).
+func ternarySequenceScenario(kind int, depth int, mont bool) engine.Scenario {
 	X := ternaryKinds[kind]
-	name := fmt.Sprintf("ternary/sequences/P=%.2f,H=%d", X.P, X.H)
+	name := fmt.Sprintf("ternary/sequences/P=%.2f,H=%d/montgomery=%v", X.P, X.H, mont)
 	return engine.Scenario{Name: name, Bound: -1, Fn: func(c *engine.Chooser) {
 		ch := tinyChain()
 		L := len(ch.mod) - 1
 		r := ringOf(ch.mod)
 		st := &stream{bgSeed: 808}
 		envA, envB := newPRNG(st), newPRNG(st)
-		mk := func(env *scriptPRNG) (base *ring.TernarySampler, view ring.Sampler, l0, l1 *ring.TernarySampler) {
-			base = newTernary(c, env, r, X, false)
-			return base, base.AtLevel(L), newTernary(c, env, r.AtLevel(0), X, false), newTernary(c, env, r.AtLevel(1), X, false)
+		mk := func(env *scriptPRNG, m bool) (base *ring.TernarySampler, view ring.Sampler, l0, l1 *ring.TernarySampler) {
+			// the base sampler goes through the generic constructor ring.NewSampler (which forwards the output-domain flag)
+			s, err := ring.NewSampler(env, r, X, m)
+			if err != nil {
+				panic(err)
+			}
+			base = s.(*ring.TernarySampler)
+			return base, base.AtLevel(L), newTernary(c, env, r.AtLevel(0), X, m), newTernary(c, env, r.AtLevel(1), X, m)
 		}
-		aBase, aView, a0, a1 := mk(envA)
-		bBase, bView, b0, b1 := mk(envB) // twin: same stream, ReadAndAdd replaced by Read
+		aBase, aView, a0, a1 := mk(envA, mont)
+		bBase, bView, b0, b1 := mk(envB, false) // twin: same stream, plain output, ReadAndAdd replaced by Read
 		n := 1 + c.Choose(depth, "length")
 		prev := int64(0)
 		for step := 0; step < n; step++ {
@@ -527,13 +535,16 @@ func ternarySequenceScenario(kind int, depth int) engine.Scenario {
 			if _, ok := ternaryValues(c, "sequence", r, level, false, twin); !ok {
 				return
 			}
+			if mont {
+				twin = mformPoly(r, twin, level) // what a Montgomery-output sampler must return for these bytes
+			}
 			if add {
 				if ok, why := polyCongruentSum(r, got, rampPoly(r, level, false), twin, level); !ok {
 					c.Fail("C17/ternary/ReadAndAdd/not-p-plus-sample", "step %d %s: %s", step, terOps[op], why)
 					return
 				}
 			} else if !polyEq(got, twin, level) {
-				c.Fail("C17/ternary/sequence/not-reproducible", "step %d %s: two samplers on the same bytes and call sequence differ", step, terOps[op])
+				c.Fail("C17/ternary/sequence/not-reproducible", "step %d %s (montgomery=%v): output differs from (the Montgomery form of) what a plain sampler draws from the same bytes and call sequence", step, terOps[op], mont)
 				return
 			}
 			if envA.off != envB.off {
@@ -545,8 +556,9 @@ func ternarySequenceScenario(kind int, depth int) engine.Scenario {
 				return
 			}
 			prev = envA.off
-			c.State("ternary", kind, envA.off, hashPoly(twin, level))
+			c.State("ternary", kind, mont, envA.off, hashPoly(twin, level))
 			c.Cover("ternary-op", terOps[op])
+			c.Cover("ternary-seq-montgomery", fmt.Sprint(mont))
 		}
 		c.Outcome(name, envA.off)
 	}}
